@@ -9,7 +9,7 @@
    nested frames.  The uint64 counter wraps in the model; the theorems assume the
    run visits fewer than 2^64 loop heads. *)
 From Coq Require Import NArith List Bool.
-From SV Require Import C07.Model C07.Spec C07.Proofs C07.ProofsCancel C07.ProofsLimit C07.ProofsDet C07.ProofsTerm.
+From SV Require Import C07.Model C07.Spec C07.Proofs C07.ProofsCancel C07.ProofsLimit C07.ProofsDet C07.ProofsTerm C07.ProofsDepth.
 Import ListNotations.
 Open Scope N_scope.
 
@@ -151,6 +151,16 @@ Proof.
   - exact (terminates_lemma St d h rc ee hm HT).
   - exact (no_infinite_run_lemma St d h rc ee hm HT).
 Qed.
+
+(* With Prog.Recursion enabled (the `len(thread.stack) > 100_000` test of
+   CallInternal), in every reachable state the call stack holds at most 100001
+   frames, every Starlark frame sits at depth <= 100000 and host frames never
+   stack directly on each other (stack_ok): unbounded recursion ends with the
+   "Starlark stack overflow" error, not with a Go stack overflow. *)
+Theorem recursion_bounded : forall St dispatch host entry_err t s sched c tr,
+  run St dispatch host true entry_err (start St true entry_err t s) sched = (Running c, tr) ->
+  N.of_nat (length (stk c)) <= depth_limit + 1 /\ stack_ok (stk c).
+Proof. exact recursion_bounded_lemma. Qed.
 
 (* ---- non-vacuity: the hypotheses hold on concrete, non-trivial inputs ---- *)
 
